@@ -471,6 +471,21 @@ def case_seeds(c):
         viol.append({'site': 'Frame', 'failure': 'same_noise_different_seeds', 'detail': 'frames with seeds %d and %d draw identical noise' % (s, s + 1)})
     if not np.array_equal(a, a2):
         viol.append({'site': 'Frame', 'failure': 'different_noise_same_seed', 'detail': 'frames with the same seed %d draw different noise' % s})
+    # two frames created from ONE caller-held array with the same seed and the same calls are bit-identical, the first is
+    # not changed while the second is filled, and the caller's array is left alone
+    src = np.random.default_rng([s, 99]).chisquare(4, size=(4, 8))
+    src0 = src.copy()
+    f1 = stg.Frame.from_data(2.0, 1.0, 1e9, False, src, seed=s)
+    f1.add_noise(3.0); f1.add_signal(f1.get_frequency(3), 2.0, stg.gaussian_f_profile(4.0))
+    d1 = np.array(f1.data, copy=True)
+    f2 = stg.Frame(data=src, df=2.0, dt=1.0, fch1=1e9, ascending=False, seed=s)
+    f2.add_noise(3.0); f2.add_signal(f2.get_frequency(3), 2.0, stg.gaussian_f_profile(4.0))
+    if not np.array_equal(f2.data, d1):
+        viol.append({'site': 'Frame', 'failure': 'history_dependent', 'detail': 'two frames created from the same array with the same seed and calls differ'})
+    if not np.array_equal(f1.data, d1):
+        viol.append({'site': 'Frame', 'failure': 'not_isolated', 'detail': 'filling a second frame created from the same array changed the first frame'})
+    if not np.array_equal(src, src0):
+        viol.append({'site': 'Frame', 'failure': 'caller_array_modified', 'detail': 'the array a frame was created from was written into'})
     # two streams with different seeds and TWO noise sources each: no source of one may repeat a source of the other
     s1 = sv.DataStream(sample_rate=1e3, seed=s); s2 = sv.DataStream(sample_rate=1e3, seed=s + 1)
     for st in (s1, s2):
